@@ -34,7 +34,7 @@ def post_merge(counters, extra):
 
 def plan(tier, seed):
     return [{"name": "s%d" % i, "seed": seed, "shard": i, "draws": 1 if tier == "quick" else 25,
-             "trials": 30 if tier == "quick" else 150, "budget_s": 8.0 if tier == "quick" else 40.0} for i in range(NSHARDS)]
+             "trials": 30 if tier == "quick" else 150, "budget_s": 4.5 if tier == "quick" else 40.0} for i in range(NSHARDS)]
 
 
 def pep_bound(entry, kwargs):
@@ -58,7 +58,7 @@ def run_shard(spec):
     t0 = time.time()
     counters = {"numeric_runs_compared": 0, "draws": 0}
     sigs, viol, samples, notes = set(), [], [], []
-    simulated, not_simulated, best = set(), {}, {}
+    simulated, not_simulated, best, best_run = set(), {}, {}, {}
     entries = ET.EXAMPLES
     work = []
     if "replay" in spec:
@@ -94,6 +94,7 @@ def run_shard(spec):
             continue
         counters["draws"] += 1
         tstart = time.time()
+        best_run.pop(name, None)
         nrun = 0
         families = set()
         for (ms, ds, dim) in trials:
@@ -125,12 +126,59 @@ def run_shard(spec):
             ratio = perf / bound if bound > 1e-9 else (0.0 if perf <= bound + 1e-7 else 1e9)
             if name not in best or ratio > best[name]:
                 best[name] = ratio
+            if name not in best_run or perf > best_run[name][3]:
+                best_run[name] = (ms, ds, dim, perf)
             if perf > bound * (1 + 1e-4) + 1e-7:
                 if len(viol) < 10 and not any(v["key"] == "real_run_beats_bound:" + name for v in viol):
                     viol.append({"key": "real_run_beats_bound:" + name, "example": name, "kwargs": kw,
                                  "member_seed": ms, "dir_seed": ds, "dim": dim,
                                  "what": "%s(%s): a real run on %s achieves %.8g, the library returns %.8g (ratio %.4f)"
                                          % (e["func"], kw, r["members"], perf, bound, ratio)})
+        # hill-climb on the starting direction from the best run found (time-boxed)
+        if nrun and forced is None and best_run.get(name) is not None and time.time() - tstart < spec.get("budget_s", 8.0) * 1.5:
+            import numpy as np
+            ms, ds, dim, perf0 = best_run[name]
+            hrng = random.Random("c09h/%s/%s" % (name, ds))
+            base_dirs = {}
+
+            def mk_hook(dirs):
+                def hook(k, u, ctx):
+                    return dirs.get(k, u) if k in dirs else u
+                return hook
+            cur = {}
+            cur_perf = perf0
+            for it in range(40):
+                if time.time() - tstart > spec.get("budget_s", 8.0) * 1.5:
+                    break
+                k = 0
+                u0 = cur.get(k)
+                if u0 is None:
+                    r_ = random.Random("%s/init/%d" % (ds, k))
+                    u0 = np.array([r_.gauss(0, 1) for _ in range(dim)])
+                    u0 = u0 / max(np.linalg.norm(u0), 1e-12)
+                cand = u0 + 0.3 * np.array([hrng.gauss(0, 1) for _ in range(dim)])
+                cand = cand / max(np.linalg.norm(cand), 1e-12)
+                trial = dict(cur)
+                trial[k] = cand
+                try:
+                    with warnings.catch_warnings():
+                        warnings.simplefilter("ignore")
+                        r = numeric.run_numeric(e["module"], e["func"], kw, ms, ds, dim, adversary={"direction": mk_hook(trial)})
+                except (numeric.Unsupported, numeric.InvalidRun):
+                    continue
+                except Exception:
+                    break
+                counters["numeric_runs_compared"] += 1
+                counters["hill_climb_runs"] = counters.get("hill_climb_runs", 0) + 1
+                if r["perf"] > cur_perf:
+                    cur, cur_perf = trial, r["perf"]
+                    ratio = cur_perf / bound if bound > 1e-9 else (0.0 if cur_perf <= bound + 1e-7 else 1e9)
+                    best[name] = max(best.get(name, 0.0), ratio)
+                    if cur_perf > bound * (1 + 1e-4) + 1e-7 and len(viol) < 10:
+                        viol.append({"key": "real_run_beats_bound:" + name, "example": name, "kwargs": kw, "member_seed": ms, "dir_seed": ds,
+                                     "dim": dim, "direction": [float(x) for x in cand],
+                                     "what": "%s(%s): a real run (hill-climbed start) achieves %.8g, the library returns %.8g"
+                                             % (e["func"], kw, cur_perf, bound)})
         if nrun:
             simulated.add(name)
             sigs.add("%s|%s|%s" % (name, ",".join("%s=%s" % (k, (round(v, 3) if isinstance(v, float) else v)) for k, v in sorted(kw.items()) if not isinstance(v, (list, dict))),
